@@ -43,7 +43,7 @@ pub fn run(ctx: &mut Ctx) {
         let Some(real) = catch(|| q.real()) else { ctx.count("build.panic"); continue };
         let r = crate::c01::render(&real, b);
         let sq = recipe.clone();
-        ctx.case_norm(format!("stmt {} {recipe}", b.name()), crate::c01::expect_line(&r), true, &move || format!("{} {}", b.name(), sq), Box::new(|m: &str| match m.rfind(" safe:") { Some(i) => m[..i].to_string(), None => m.to_string() }));
+        ctx.case_norm(format!("stmt {} {recipe}", b.name()), crate::c01::expect_line(&r), true, &move || format!("{} {}", b.name(), sq), crate::c01::strip_flags(false));
         let Some(r) = r else { ctx.oracle_fail("a statement built from the dialect's supported features cannot be rendered (the crate panics)", serde_json::json!({"backend": b.name(), "recipe": recipe})); continue };
         ctx.count(&format!("kind.{}", match &q { Query::Sel(_) => "select", Query::Ins(_) => "insert", Query::Upd(_) => "update", Query::Del(_) => "delete", Query::With(_, _) => "with" }));
         let reference = crate::explicit::render(b, &q);
